@@ -22,7 +22,7 @@ RULE = ("an execution = (framework, component configuration, sequence of per-att
         ">= 2 attempts or >= 1 joined session")
 ASSUMPTIONS = [
     "histories of at most 4 attempts over the full alphabet for 5 core transport sets and at most 3 for the "
-    "whole configuration grid (quick); at most 5 for 19 transport sets, 4 for the whole grid and 6 for six "
+    "whole configuration grid (quick); at most 5 for 15 transport sets, 4 for the whole grid and 6 for six "
     "small configurations (thorough); stop() family: depth 3 (quick) / 3-4 (thorough); delay family: depth 5 "
     "/ 5-6 over {refused, abort, lost, goodbye}; max_retries=-1 is cut by that horizon",
     "outcome alphabet: refused, hs_reject (HTTP 400 / bad RawSocket magic), hs_drop, abort "
@@ -114,12 +114,12 @@ def make_jobs(tier):
                          ([T(W, 1), T(R, 0)], True), ([T(R, 0), T(W, 1)], False)):
             plan.append(("B", _cfg(ts, main, None, 3), ALPHA_FULL, True))
     else:
-        deep5 = singles + pairs((W, R), [(0, 0), (0, 1), (1, 0), (1, 1), (2, 1), (0, 2)]) + \
-            pairs((R, W), [(0, 1), (1, 0)]) + unlimited[:1] + triples([(1, 0, 2), (0, 1, 0)])
+        deep5 = singles + pairs((W, R), [(0, 0), (0, 1), (1, 0), (1, 1)]) + \
+            pairs((R, W), [(0, 1)]) + unlimited[:1] + triples([(1, 0, 2)])
         for ts in deep5:
             for main in (False, True):
                 plan.append(("A", _cfg(ts, main, None, 5), ALPHA_FULL, False))
-        for ts in ([T(W, 1)], [T(R, 2)], [T(W, 1), T(R, 0)], [T(W, 0), T(R, 1), T(W, 0)]):
+        for ts in ([T(W, 1)], [T(R, 2)], [T(W, 1), T(R, 0)]):
             for main in (False, True):
                 plan.append(("A", _cfg(ts, main, "refused", 5), ALPHA_FULL, False))
         seen = [json_key(ts) for ts in deep5]
@@ -236,9 +236,20 @@ def judge(cfg, obs, fw, stats=None):
     # waits
     seq = []
     prev_end = 0.0
+    answers = {}
+    for name, r, n in obs["fatal_calls"]:
+        answers.setdefault(n, r)
     for a in atts:
         wait = None if prev_end is None else round(a["t"] - prev_end, 9)
-        seq.append((a["idx"], a["outcome"], wait))
+        ans = None
+        if cfg["is_fatal"] is not None and a["outcome"] not in R.END_OK:
+            ans = answers.get(a["n"], False)
+            if a["outcome"] != "main_raises":
+                if a["n"] not in answers:
+                    bump("classifier_not_consulted")
+                elif ans != R.is_fatal(cfg["is_fatal"], a["outcome"]):
+                    bump("classifier_given_unexpected_error")
+        seq.append((a["idx"], a["outcome"], wait, ans))
         if a["t_end"] is None:
             prev_end = None
         elif prev_end is not None:
@@ -353,7 +364,7 @@ def judge(cfg, obs, fw, stats=None):
     bump("jitter_draws", len(obs["jitter_calls"]))
     ever = set()
     fails = {}
-    for (idx, outcome, wait), a in zip(seq, atts):
+    for (idx, outcome, wait, _ans), a in zip(seq, atts):
         if cut is not None and a["n"] >= cut:
             break
         tc = cfg["transports"][idx]
